@@ -19,7 +19,7 @@ Import ListNotations.
 Require Import TV.Base.EP TV.Base.EPSound TV.Base.Amp TV.Model.Lane TV.Spec.Born TV.gen.Gen_instructions TV.gen.Gen_channel_tables
   TV.Model.GateCheck TV.Model.InstrCheck TV.Model.KrausCheck TV.Proofs.GateProofs TV.Proofs.InstrProofs
   TV.Proofs.CircuitProofs TV.Proofs.CircuitTheorem TV.Proofs.DenseBridge TV.Proofs.KrausSem TV.Proofs.KrausLocal TV.Proofs.KrausTheorem
-  TV.Proofs.KrausGates TV.Proofs.KrausCircuit TV.Proofs.KrausBorn TV.Proofs.KrausMpp TV.Model.Parse TV.Proofs.ParseElab.
+  TV.Proofs.KrausGates TV.Proofs.KrausCircuit TV.Proofs.KrausBorn TV.Proofs.KrausMpp TV.Model.Parse TV.Proofs.ParseElab TV.Proofs.ParseBorn.
 
 (* M MX MY MR MRX MRY x {plain, inverted} x {noiseless, noisy} x {existing lane, fresh lane} x all bits:
    Kraus(reported r, inversion inv, noise e) = projector / projector-and-reprepare onto outcome r xor inv xor e *)
@@ -227,3 +227,25 @@ Example C01_parsed_text_inhabited_ok :
   | None => false
   end = true.
 Proof. intros. lazy. reflexivity. Qed.
+
+(* ... and the Born weight from program text: Model/Parse.weights -- the numbers whose normalised form the correspondence run compares
+   with the distribution tsim's sampler uses on every run -- are squared norms of final dense vectors of the parse model's lane
+   program.  For every text whose parse is the lane program of its elaborated circuit, that squared norm is |C|^2 times the squared
+   norm of the ordered product of the documented Kraus operators applied to |0...0>, with C a product of powers of sqrt 2 chosen
+   before the record, silent and error bits. *)
+Theorem C01_parsed_text_born_weight :
+  forall (R : Type) (rO rI : R) (radd rmul rsub : R -> R -> R) (ropp : R -> R),
+  ring_theory rO rI radd rmul rsub ropp eq ->
+  forall E : Qc -> R, (forall a b, E (a + b)%Qc = rmul (E a) (E b)) -> E 0%Qc = rI -> E 1%Qc = ropp rI ->
+  forall half : R, radd half half = rI ->
+  forall conj : R -> R, (forall a b, conj (radd a b) = radd (conj a) (conj b)) -> (forall a b, conj (rmul a b) = rmul (conj a) (conj b)) ->
+  conj rI = rI -> (forall q, conj (E q) = E (- q)%Qc) -> conj half = half -> forall ta tb tc : Qc,
+  forall (n aux : nat) (c : list instr) (cs : list cinstr) (ps : pstate),
+    build aux c = Some ps -> parse_is_circuit aux c cs = true ->
+    forallb (cinstr_lanes_ok n) cs = true -> ccircuit_ok R rO rI radd rmul ropp E half ta tb tc (kinit R rO rI n) cs = true ->
+    exists C, sq2 R rO rI radd rmul ropp E half ta tb tc C /\ forall b,
+      eval R rO rI radd rmul ropp E half ta tb tc (norm2 (final_vec (run n b (pops ps) (init_state n))))
+      = rmul (sqabs R rmul conj C)
+          (rsum R rO radd (map (fun i => sqabs R rmul conj (cspec R rO rI radd rmul ropp E half ta tb tc b (kinit R rO rI n) cs (kpsi R (kinit R rO rI n)) (Nat.testbit i)))
+                               (seq 0 (dim n)))).
+Proof. exact parsed_born_weight. Qed.
